@@ -76,6 +76,24 @@ def run(chk):
             bad += 1; nm = f'C14/native mutated string {text!r} k={k} context {present}'
             chk.obligation(nm, 'native-vs-classifier', 'violated'); chk.violation(nm, 'panic' if 'panic' in diffs[0] else 'classification', {'text': text, 'k': k, 'present': present, 'differences': diffs}, '; '.join(diffs)[:400])
     if not bad: chk.obligation(f'C14/native {n} grammar-mutated strings x k x context subsets: no panic, Ok/Err as classified', 'native-vs-classifier', 'holds', 0.0, True, {'strings': n})
+    # valid extended formulas with a complete context and exactly enough variable sets are evaluated (never an error, never a
+    # panic) on instances whose context sets are colour-dependent (d and e share no colour, `empty`, `full`): the families of C02 / C04
+    from . import c02, c04
+    from ..oracle import sem as S
+    valid = c02.family() + c02.repeated_domain_family() + c04.scope_family()[::3 if not thorough else 1]
+    nbad = 0
+    for inst in UC.instances(['U2', 'C2']):
+        fs = [f for f in valid if not (S.labels(f)[0] | S.labels(f)[1]) - set(inst.ctx)]
+        for i in range(0, len(fs), 15):
+            chunk = fs[i:i + 15]
+            for entry in ('ext', 'ext_multi_dirty'):
+                sess = UC.Session(inst, max(S.quant_depth(f) for f in chunk) or 1, [{'phis': [f], 'entry': entry} for f in chunk])
+                for f, r in zip(chunk, sess.runs):
+                    if 'ok' in r: continue
+                    nbad += 1; nm = f'C14/native {inst.name} {entry}: valid formula {S.show(f)} is evaluated'
+                    chk.obligation(nm, 'native', 'violated'); chk.native_replays += 1
+                    chk.violation(nm, 'panic' if 'panic' in r else 'classification', {'instance': inst.name, 'aeon': inst.aeon, 'formula': S.show(f), 'entry': entry, 'answer': {k_: v_ for k_, v_ in r.items() if k_ != 'ok'}}, f'valid input {S.show(f)} answered {str(r.get("panic") or r.get("err"))[:200]}')
+    if not nbad: chk.obligation(f'C14/native: {len(valid)} valid extended formulas (nested / repeated / empty / colour-disjoint domains) x U2, C2 x sanitising and raw entry points: all evaluated', 'native', 'holds', 0.0, True, {'formulas': len(valid)})
     if chk.unexplored:
         # parts of the symbolic exploration have no verdict on this tree: bounded native enumeration instead (DESIGN.md 3.7)
         from .. import fallback
